@@ -16,9 +16,16 @@ pub struct VaultItem {
     pub passkey: Passkey,
     pub locked: bool,
 }
+thread_local! {
+    /// the next item conversion on this thread panics (user-supplied code may panic)
+    static PANIC_NEXT_CONVERSION: std::cell::Cell<bool> = const { std::cell::Cell::new(false) };
+}
 impl TryFrom<VaultItem> for Passkey {
     type Error = &'static str;
     fn try_from(v: VaultItem) -> Result<Passkey, Self::Error> {
+        if PANIC_NEXT_CONVERSION.with(|p| p.replace(false)) {
+            panic!("injected: the item conversion panicked");
+        }
         if v.locked {
             Err("locked")
         } else {
@@ -134,4 +141,46 @@ pub fn cases() -> Vec<(Vec<u8>, u8, bool)> {
         }
     }
     v
+}
+
+
+/// After the user-supplied item conversion panicked once during a ceremony (the embedder caught
+/// the unwind), the same authenticator performs the next ceremony like a fresh one would.
+/// api 0: U2F register, authenticate (conversion panics), authenticate; api 1: CTAP2 assertion
+/// (conversion panics), assertion.
+pub fn after_conversion_panic(api: u8) -> Vec<(String, String)> {
+    use passkey_authenticator::U2fApi;
+    use passkey_types::u2f::{AuthenticationParameter, AuthenticationRequest, RegisterRequest};
+    let mut out = vec![];
+    let vault = Vault::default();
+    let r = par::catch(|| {
+        if api == 0 {
+            let mut a = Authenticator::new(Aaguid::new_empty(), vault.clone(), VaultUv::default());
+            let handle = vec![0x51u8; 24];
+            let (ch, app) = ([7u8; 32], [9u8; 32]);
+            block_on(U2fApi::register(&mut a, RegisterRequest { challenge: ch, application: app }, &handle)).map_err(|e| format!("registration failed: {e:?}"))?;
+            let req = || AuthenticationRequest { parameter: AuthenticationParameter::EnforceUserPresence, challenge: ch, application: app, key_handle: handle.clone() };
+            PANIC_NEXT_CONVERSION.with(|p| p.set(true));
+            let first = std::panic::catch_unwind(std::panic::AssertUnwindSafe(|| block_on(U2fApi::authenticate(&a, req(), 1, passkey_types::ctap2::Flags::UP)).is_ok()));
+            PANIC_NEXT_CONVERSION.with(|p| p.set(false));
+            let second = block_on(U2fApi::authenticate(&a, req(), 2, passkey_types::ctap2::Flags::UP));
+            Ok::<_, String>((first.is_err(), second.map(|_| ()).map_err(|e| format!("{e:?}"))))
+        } else {
+            vault.items.lock().unwrap().push(VaultItem { passkey: seeded(&Seed { n: 1, rp: "example.com".into(), handle: Some(vec![1]), counter: Some(4), hmac: None }), locked: false });
+            let mut a = Authenticator::new(Aaguid::new_empty(), vault.clone(), VaultUv::default());
+            let req = || ga_request("example.com", Some(vec![cred_id(1)]), false, true, true, false, None);
+            PANIC_NEXT_CONVERSION.with(|p| p.set(true));
+            let first = std::panic::catch_unwind(std::panic::AssertUnwindSafe(|| block_on(a.get_assertion(req())).is_ok()));
+            PANIC_NEXT_CONVERSION.with(|p| p.set(false));
+            let second = block_on(a.get_assertion(req()));
+            Ok((first.is_err(), second.map(|_| ()).map_err(|e| format!("{e:?}"))))
+        }
+    });
+    match r {
+        Err(p) => out.push(("panic-after-user-code-panic".into(), format!("the ceremony after the one in which the item conversion panicked panics itself: {p}"))),
+        Ok(Err(e)) => out.push(("harness".into(), e)),
+        Ok(Ok((_, Err(e)))) => out.push(("ceremony-fails-after-user-code-panic".into(), format!("the item conversion panicked once (unwind caught); the next {} on the same authenticator fails with {e} although a fresh authenticator performs it", if api == 0 { "U2F authentication with the registered key handle" } else { "assertion" }))),
+        Ok(Ok((_, Ok(())))) => {}
+    }
+    out
 }
